@@ -56,6 +56,9 @@ def monitor(sub, c, o, out, ex):
                 sub.fail("loss:callback-endmarker-not-exactly-once-at-end", ex)
             if mode != "callback_dropped" and o.get("end") in (None, "Timeout"):
                 sub.fail("loss:waitclose-blocked-forever", ex)
+            elif mode != "callback_dropped" and ex.get("cut") is not None and len(items) < len(want) and o.get("end") != "EOFError":
+                # the conversation was cut short (not even all items came): the end is the connection's, not an error of the channel
+                sub.fail("loss:waitclose-after-loss-not-EOFError:callback:" + str(o.get("end")), ex)
             return
         if second is not None:
             allg = [canon(x) for x in got] + [canon(x) for x in second.get("got", [])]
